@@ -286,6 +286,55 @@ def culprit(pid: str, bad_d1: set) -> str:
     return base
 
 
+# ---- execution differential: the same AST can still mean something else if the code is compiled or run in another
+# environment (compiler flags inherited by exec, namespace layout).  Each program leaves its observation in RESULT.
+EXEC_PROGRAMS = [
+    ("def_annotations", "def f(x: 1 + 1, y: 'sv' = 3) -> 4:\n    pass\nRESULT = sorted(f.__annotations__.items())"),
+    ("class_annotations", "class K:\n    a: int = 1\n    b: 2 = 2\nRESULT = sorted((k, repr(v)) for k, v in K.__annotations__.items())"),
+    ("module_annotations", "v: int = 5\nRESULT = sorted((k, repr(t)) for k, t in __annotations__.items())"),
+    ("annotation_evaluated_for_effect", "L = []\ndef g(x: L.append(1)):\n    pass\nRESULT = L"),
+    ("annotation_names_undefined", "def h(x: NoSuchName):\n    pass\nRESULT = 1"),
+    ("default_evaluated_at_def", "L = []\ndef d(x=L.append(2)):\n    pass\nRESULT = L"),
+    ("closure_nonlocal", "def mk():\n    c = 0\n    def inc():\n        nonlocal c\n        c += 1\n        return c\n    return inc\ni = mk()\ni()\nRESULT = i()"),
+    ("function_reads_module_global", "x = 5\ndef f():\n    return x\nRESULT = f()"),
+    ("comprehension_scope", "x = 5\nRESULT = ([x for x in range(3)], x)"),
+    ("class_body_scope", "y = 1\nclass C:\n    y = 2\n    z = [y for _ in range(1)]\nRESULT = C.z"),
+    ("assert_enabled", "try:\n    assert False\nexcept AssertionError:\n    RESULT = 'raised'\nelse:\n    RESULT = 'skipped'"),
+    ("debug_flag", "RESULT = __debug__"),
+    ("name_is_main", "RESULT = __name__"),
+    ("string_escapes", "RESULT = ('\\N{BULLET}', b'\\x00', r'\\n', '\\u00e9')"),
+    ("true_division", "RESULT = (1 / 2, 1 // 2, -7 % 3)"),
+    ("generator_stop", "def g():\n    raise StopIteration\n    yield 1\ntry:\n    list(g())\n    RESULT = 'swallowed'\nexcept RuntimeError:\n    RESULT = 'RuntimeError'"),
+    ("global_statement", "n = 0\ndef bump():\n    global n\n    n += 1\nbump()\nbump()\nRESULT = n"),
+    ("decorator_order", "T = []\ndef d1(f):\n    T.append(1)\n    return f\ndef d2(f):\n    T.append(2)\n    return f\n@d1\n@d2\ndef f():\n    pass\nRESULT = T"),
+    ("try_else_finally_order", "T = []\ntry:\n    T.append('t')\nexcept ValueError:\n    T.append('x')\nelse:\n    T.append('e')\nfinally:\n    T.append('f')\nRESULT = T"),
+    ("kwonly_defaults", "def f(a, b=2, *c, d, e=5, **g):\n    return (a, b, c, d, e, g)\nRESULT = f(1, d=4, z=9)"),
+    ("star_unpacking", "a, *b = [1, 2, 3]\nRESULT = (a, b, [*b, 0], {**{'k': 1}})"),
+]
+
+
+def exec_work(item):
+    from mc.fd import build
+    name, text = item
+    ref: dict = {"__name__": "__main__"}
+    try:
+        exec(compile(text, "<c08>", "exec", dont_inherit=True), ref)
+        want = ("value", repr(ref.get("RESULT")))
+    except Exception as e:
+        want = ("raises", type(e).__name__)
+    try:
+        spec = build(text + '\n<start> ::= "a"\n')
+        env = spec.grammar.get_spec_env()[0]
+        got = ("value", repr(env.get("RESULT")))
+    except Exception as e:
+        got = ("raises", type(e).__name__)
+    out = {"name": name, "viol": None, "want": want}
+    if got != want:
+        out["viol"] = {"kind": "python_runs_differently", "construct": name, "where": "exec", "source": text, "cpython": list(want), "fandango": list(got),
+                       "sig": f"python_runs_differently:{name}"}
+    return out
+
+
 def run(ctx: Ctx) -> None:
     progs = rotate(programs(ctx.tier), ctx.seed)
     ctx.log(f"{len(progs)} programs")
@@ -303,13 +352,19 @@ def run(ctx: Ctx) -> None:
             rej.setdefault(r["status"], []).append(f"{r['kind']}:{r['id']}")
         if r["viol"]:
             viols.append(r["viol"])
+    exec_res = pmap_tagged(exec_work, EXEC_PROGRAMS, chunk=4)
+    exec_viols = [r["viol"] for r in exec_res if r["viol"]]
     bad_d1 = {v["construct"] for v in viols if "<-" not in v["construct"] and "{" not in v["construct"]}
     bad_d1 |= {b.split(":")[0] for b in bad_d1}
     for v in viols:
         v["culprit"] = culprit(v["construct"], bad_d1)
         v["sig"] = f"{v['kind']}:{v['where']}:{v['culprit']}"
         ctx.violation(v)
+    for v in exec_viols:
+        v["culprit"] = v["construct"]
+        ctx.violation(v)
     ctx.coverage.update(
+        executed_programs=len(EXEC_PROGRAMS), executed_outcomes={r["name"]: r["want"][1][:40] for r in exec_res},
         programs=len(progs), disagreements_checked=accepted, samples=[{"kind": p[1], "id": p[0], "source": p[2]} for p in progs[:6]],
         accepted=accepted, rejected_by_fandango=rejected, rejected_by_cpython=notpy,
         rejected_constructs={k: sorted(set(x.split("[")[0].split("{")[0] for x in v))[:40] for k, v in rej.items()},
